@@ -98,6 +98,12 @@ def check(model, o, feeds_list, overridable, sample_feeds=None):
                             # inputs are the caller's contract; output dims are derived and may be refined (symbolic -> known)
                             verdicts.append((f"signature:{what}-symdim:{o['api']}", f"{n}: {d} -> {d2}"))
                             break
+    # a graph input with a default (an initializer of the same name) keeps its default: otherwise an optional input became required
+    new_inits = {i.name for i in new.graph.initializer}
+    lost = [v.name for v in model.graph.input if v.name in {i.name for i in model.graph.initializer}
+            and v.name in {w.name for w in new.graph.input} and v.name not in new_inits]
+    if lost:
+        verdicts.append((f"signature:input-default-lost:{o['api']}", f"graph inputs {lost} are still inputs of the result but their default initializers are gone"))
     # overridable initializer-inputs are never folded: run with overrides
     if overridable and not probs:
         src = compare.Source(model)
